@@ -57,6 +57,8 @@ def conservation(r, res, st):
                 if tot - denied > TOL:
                     res.violation("failing-input", "adjustments after row %d of %s add up to %s, more than the denied amount %s" % (k, sname, tot, denied),
                                   {"input": r["hc"], "row": k, "actual_impl": str(tot), "expected_spec": "<= " + str(denied)})
+                if nadj >= 1:
+                    apportionment(r, res, st, sname, ds, k, j)
                 if nadj >= 2:
                     multi = True
                 if nadj:
@@ -78,6 +80,47 @@ def conservation(r, res, st):
                 r["maxres"] = max(r.get("maxres", ZERO), abs(lhs - rhs))
         if multi:
             r["multi"] = True
+
+
+def apportionment(r, res, st, sname, ds, k, j):
+    """second formulation: the adjustments ds[k+1:j] after the sale ds[k] go to the affiliates that bought in
+    the window, in proportion to their end-of-window holdings (computed here from the implementation's own rows:
+    an affiliate's balance after its last row settling up to 30 days after the sale)"""
+    s_day = ds[k]["sd"]
+    if any(d["act"] == "Split" and s_day < d["sd"] <= s_day + 30 for d in ds):
+        st["apportionment-skipped-split-after-sale"] += 1
+        return
+    hold, buyers = {}, set()
+    for d in ds:
+        if d["sd"] > s_day + 30:
+            break
+        hold[d["af"]] = d["post"][0]
+        if d["act"] == "Buy" and d["sd"] >= s_day - 30:
+            buyers.add(d["af"])
+    adj = {}
+    for d in ds[k + 1:j]:
+        adj[d["af"]] = adj.get(d["af"], ZERO) + d["sfla"][0] * d["sfla"][1]
+    st["apportionments_checked"] += 1
+    for a in adj:
+        if a not in buyers:
+            res.violation("failing-input", "%s: the adjustment after row %d goes to affiliate %s, which bought nothing in the window" % (sname, k, a),
+                          {"input": r["hc"], "row": k})
+            return
+    for a in buyers:
+        if hold.get(a, ZERO) > 0 and a not in adj:
+            res.violation("failing-input", "%s: affiliate %s bought in the window of the sale at row %d and holds %s shares at its end but gets no adjustment" % (sname, a, k, hold[a]),
+                          {"input": r["hc"], "row": k})
+            return
+    items = sorted(adj.items())
+    a0, x0 = items[0]
+    for a, x in items[1:]:
+        lhs, rhs = x * hold.get(a0, ZERO), x0 * hold.get(a, ZERO)
+        if abs(lhs - rhs) > TOL * max(abs(lhs), abs(rhs), Fraction(1)):
+            res.violation("failing-input",
+                          "%s: the denied loss of row %d is not split in proportion to end-of-window holdings: affiliate %s holds %s and gets %s, affiliate %s holds %s and gets %s" % (
+                              sname, k, a0, hold.get(a0), float(x0), a, hold.get(a), float(x)),
+                          {"input": r["hc"], "row": k, "holdings": {str(z): str(hold.get(z)) for z in adj}, "adjustments": {str(z): str(v) for z, v in adj.items()}})
+            return
 
 
 def run(res, ctx):
